@@ -68,6 +68,10 @@ def build(tier, seed):
         for name in ('f_A', 'f_1', 'F_V0'):
             for block in ('first', 'middle', 'last'):
                 cases.append({'kind': 'sfcf', 'layout': layout, 'name': name, 'block': block})
+    # several correlators in one call (read_sfcf_multi), requested in an order that is not their order in the file
+    for layout in ('c', 'o'):
+        for order in (['f_P', 'f_A'], ['f_A', 'F_V0'], ['f_1', 'f_P', 'F_V0']):
+            cases.append({'kind': 'sfcf-multi', 'layout': layout, 'names': order})
     for arch in ('json', 'dobs', 'pobs', 'csv'):
         cases.append({'kind': 'archive', 'arch': arch})
     return cases
@@ -79,7 +83,7 @@ def run_case(case):
     d = tmpdir(case['kind'])
     try:
         with quiet():
-            {'rwms': run_rwms, 'msdat': run_msdat, 'gfms': run_gfms, 'ms5': run_ms5, 'sfcf': run_sfcf, 'archive': run_archive}[case['kind']](pe, acc, case, d)
+            {'rwms': run_rwms, 'msdat': run_msdat, 'gfms': run_gfms, 'ms5': run_ms5, 'sfcf': run_sfcf, 'sfcf-multi': run_sfcf_multi, 'archive': run_archive}[case['kind']](pe, acc, case, d)
     finally:
         shutil.rmtree(d, ignore_errors=True)
     return acc
@@ -344,6 +348,60 @@ def run_sfcf(pe, acc, case, d):
 
 
 # ----------------------------------------------------------------------------- exported archives
+def run_sfcf_multi(pe, acc, case, d):
+    layout, nl = case['layout'], case['names']
+    from checks.c17_sfcf import VERSION
+    PREFIX = 'dataE'
+    reps = [1, 2]
+    cfgs = {1: list(range(1, 7)), 2: list(range(2, 12, 2))}
+    names = sorted(sf.CORRS)
+    for r in reps:
+        {'o': sf.write_separate, 'c': sf.write_compact}[layout](d, PREFIX, r, cfgs[r], names)
+    tl = [sf.CORRS[n][0] for n in nl]
+    rd = pe.input.sfcf
+
+    def call():
+        return rd.read_sfcf_multi(d, PREFIX, list(nl), quarks_list=[sf.QUARKS[1]], corr_type_list=list(tl), noffset_list=[1], wf_list=[2], wf2_list=[2],
+                                  version=VERSION[layout], silent=True)
+    tcfg = cfgs[1][-1]
+    targets = [os.path.join(d, '%sr1' % PREFIX, '%sr1_n%d' % (PREFIX, tcfg))] if layout == 'c' else [os.path.join(d, '%sr1' % PREFIX, 'cfg%d' % tcfg, n) for n in nl]
+    for path in targets:
+        data = open(path, 'rb').read()
+
+        def judge(res, m):
+            for n, typ in zip(nl, tl):
+                T = sf.CORRS[n][1]
+                w2 = 2 if typ != 'bi' else 0
+                got = res[n][sf.QUARKS[1]]['1']['2'][str(w2) if typ != 'bi' else '0']
+                if len(got) != T:
+                    return '%s: %d timeslices' % (n, len(got))
+                for t in range(T):
+                    o = got[t]
+                    for r in reps:
+                        cn = '%s|r%d' % (PREFIX, r)
+                        gc = list(o.idl[cn])
+                        complete = cfgs[r] if r != 1 else [c for c in cfgs[r] if c != tcfg]
+                        if not set(complete) <= set(gc) or not set(gc) <= set(cfgs[r]):
+                            return '%s replica r%d: configurations %s; complete records are %s' % (n, r, gc, complete)
+                        exp = [sf.value(r, c, n, 1, 1, 2, w2, t, 0) for c in gc]
+                        if not np.allclose(samples(o, cn), exp, rtol=1e-15, atol=0):
+                            k = int(np.argmax(np.abs(samples(o, cn) - exp)))
+                            return '%s replica r%d timeslice %d: configuration %d carries %r, the stored number is %r' % (n, r, t, gc[k], samples(o, cn)[k], exp[k])
+            return None
+        offs = set(range(0, len(data), 7 if os.environ.get('VERIF_TIER', 'quick') == 'quick' else 1))
+        for n, typ in zip(nl, tl):
+            marker = ('name      %s\nquarks    %s\noffset    %d\nwf        %d' % (n, sf.QUARKS[1], 1, 2)).encode()
+            if typ != 'bi':
+                marker += ('\nwf_2      %d' % 2).encode()
+            pos = data.find(marker)
+            while pos >= 0:
+                offs |= set(range(max(0, pos - 60), min(len(data), pos + 60 + 60 * sf.CORRS[n][1] + 120)))
+                pos = data.find(marker, pos + 1)
+        offs |= set(range(max(0, len(data) - 200), len(data)))
+        sweep(acc, dict(case, file=os.path.relpath(path, d)), 'sfcf-multi:%s' % layout, path, [0, len(data)], call, judge, offsets=sorted(offs))
+    acc.sample({'kind': 'sfcf-multi', 'layout': layout, 'correlators': nl, 'files_truncated': [os.path.relpath(p_, d) for p_ in targets]})
+
+
 def run_archive(pe, acc, case, d):
     arch = case['arch']
     o1 = alpha.make_obs(pe, {'A|r1': 'c12', 'A|r2': 'irr'}, ('c18', 1), 'ar1', 1.0, 0.1)[0]
